@@ -19,12 +19,12 @@ ID = "C13"
 LEVEL = "model_checking"
 RULE = ("states are drawings = sets of placed items on a lattice (canonical key: the item set), reached by placement programs; "
         "(A) structure: every filling of the 4 edges of the 2x2 lattice with {nothing, wire, resistor in either direction, DC voltage "
-        "source in either direction with either reversal flag} x every ground position (none, each point), each built in canonical "
+        "source in either direction with either reversal flag} x ground positions (none, first and last touched point; thorough: every touched point), each built in canonical "
         "and reversed insertion order (and every adjacent swap for the ground-at-origin drawings), plus every 3x2-lattice drawing "
         "with <= 3 edge items incl. a wire spanning two cells and one node label; (B) kinds: every symbol kind of the statement x "
         "both placement directions x all four rotations x reversal flag x degree/sine options in two one-loop contexts; (C) "
-        "metamorphic generators on every (A) drawing with the ground at the origin: rotations by 90/180/270 degrees, three "
-        "translations (one on a rounding boundary), three drawing units, every wire split in two, direction-style and chained "
+        "metamorphic generators on every (A) drawing with the ground at the origin: rotations by 90/180/270 degrees, two "
+        "translations (one on a rounding boundary), two drawing units (thorough: three each and a combined one), every wire split in two, chained "
         "placement, two further hash seeds (sub-process); each built drawing is translated by the real translator and compared "
         "with the union-find reference (bijection on node classes, labels, ground, components, electrical equality of sources) and, "
         "when well-posed, its DC / w=1 solution with the reference solution; states = distinct drawings, transitions = "
@@ -69,10 +69,12 @@ def shards(tier):
     n = len(opts)
     for a in range(n):
         for b in range(n):
-            out.append(("A: 2x2 lattice fillings", ("A", a, b, tier)))
+            for c in range(n):
+                out.append(("A: 2x2 lattice fillings", ("A", a, b, c, tier)))
     e3 = len(EDGES3)
     for i in range(e3):
-        out.append(("A: 3x2 lattice <=3 items", ("A3", i, tier)))
+        for j in range(i, e3):
+            out.append(("A: 3x2 lattice <=3 items", ("A3", i, j, tier)))
     for k in range(len(kind_cases())):
         out.append(("B: symbol kinds", ("B", k)))
     for a in range(n):
@@ -84,20 +86,21 @@ def run_shard(desc):
     res = new_result()
     res["state_keys"] = set()
     if desc[0] == "A":
-        _, a, b, tier = desc
+        _, a, b, c, tier = desc
         opts = edge_options(tier)
-        for c in range(len(opts)):
+        if True:
             for d_ in range(len(opts)):
                 sel = [opts[a], opts[b], opts[c], opts[d_]]
                 base = [make_item(o, EDGES2[k], k) for k, o in enumerate(sel) if o is not None]
                 if not any(it["op"] == "sym" for it in base):
                     continue
                 touched = sorted({tuple(it[k]) for it in base for k in ("p", "q")})
-                for g in [None] + touched:
+                gpos = [None] + touched if tier == "thorough" else [None, touched[0], touched[-1]]
+                for g in gpos:
                     prog = base + ([{"op": "ground", "p": list(g)}] if g is not None else [])
                     explore_drawing(prog, res, full=(g == (0, 0)) or (g is not None and (0, 0) not in touched and g == touched[0]), tier=tier)
     elif desc[0] == "A3":
-        run_a3(desc[1], desc[2], res)
+        run_a3(desc[1], desc[2], desc[3], res)
     elif desc[0] == "B":
         run_kind(kind_cases()[desc[1]], res)
     else:
@@ -108,7 +111,7 @@ def run_shard(desc):
 def replay(case):
     res = new_result()
     res["state_keys"] = set()
-    judge_build(case["program"], case.get("geom", {}), case.get("style", "to"), res, w_list=case.get("w_list", (0.0,)))
+    judge_build(case["program"], case.get("geom", {}), case.get("style", "dir"), res, w_list=case.get("w_list", (0.0,)))
     return res["violations"]
 
 
@@ -146,8 +149,8 @@ def split_wires(prog):
     return out
 
 
-GEOMS = [{"theta": 90}, {"theta": 180}, {"theta": 270}, {"origin": [1, 2]}, {"origin": [-3.5, 2.25]}, {"origin": [0.005, 0.015]},
-         {"unit": 3}, {"unit": 3.5}, {"unit": 7}]
+GEOMS = [{"theta": 90}, {"theta": 180}, {"theta": 270}, {"origin": [-3.5, 2.25]}, {"origin": [0.005, 0.015]}, {"unit": 3.5}, {"unit": 7}]
+GEOMS_THOROUGH = GEOMS + [{"origin": [1, 2]}, {"unit": 3}, {"theta": 90, "origin": [0.005, 0.015], "unit": 3.5}]
 
 
 def explore_drawing(prog, res, full, tier):
@@ -160,16 +163,16 @@ def explore_drawing(prog, res, full, tier):
         res["nontrivial"] += 1
     for o in orders(prog, full):
         bump(res["hits"], "insertion_order")
-        judge_build(o, {}, "to", res)
+        judge_build(o, {}, "dir", res)
     if full:
-        for g in GEOMS:
+        for g in (GEOMS_THOROUGH if tier == "thorough" else GEOMS):
             bump(res["hits"], "rotate" if "theta" in g else ("translate" if "origin" in g else "rescale"))
-            judge_build(prog, g, "to", res)
+            judge_build(prog, g, "dir", res)
         if any(it["op"] == "wire" for it in prog):
             bump(res["hits"], "split_wire")
-            judge_build(split_wires(prog), {}, "to", res)
+            judge_build(split_wires(prog), {}, "dir", res)
         bump(res["hits"], "placement_style")
-        judge_build(prog, {}, "dir", res)
+        judge_build(prog, {}, "chain", res)
         judge_build(prog, {"theta": 90}, "chain", res)
 
 
@@ -362,13 +365,13 @@ def judge_build(prog, geom, style, res, w_list=(0.0,)):
 
 
 # ------------------------------------------------------------------ (A) 3x2 lattice, <= 3 edge items, long wires, labels
-def run_a3(i, tier, res):
+def run_a3(i, j, tier, res):
     opts = [("wire", False), ("R", False), ("V", False, False), ("V", True, True)]
     edges = EDGES3
-    for j in range(len(edges)):
+    if True:
         for k in range(j, len(edges)):
             idxs = sorted({i, j, k})
-            if idxs[0] != i:
+            if len(idxs) < 3 and k != j:
                 continue
             for sel in itertools.product(opts, repeat=len(idxs)):
                 base = [make_item(o, edges[e], n) for n, (o, e) in enumerate(zip(sel, idxs))]
@@ -420,7 +423,7 @@ def run_kind(kc, res):
                 res["nontrivial"] += 1
                 res["state_keys"].add(hash(key_of(ctx)))
                 for theta in (0, 90, 180, 270):
-                    for style in ("to", "dir"):
+                    for style in ("dir", "chain"):
                         bump(res["hits"], "kind:" + kind)
                         judge_build(ctx, {"theta": theta}, style, res, w_list=(0.0, 1.0, 3.0))
 
@@ -428,7 +431,7 @@ def run_kind(kc, res):
 # ------------------------------------------------------------------ (C) hash seeds in sub-processes
 def run_hash(a, tier, res):
     """re-run one slice of (A) (ground at the origin, canonical order) under two other hash seeds"""
-    for seed in ("1", "7"):
+    for seed in (("1", "7") if tier == "thorough" else ("1",)):
         env = dict(os.environ, PYTHONHASHSEED=seed, VERIF_C13_SUB="1")
         code = ("import sys, json; sys.path.insert(0, %r); from mc import runner; runner.ensure_repo_import(); from props import c13; "
                 "r = c13.hash_slice(%d, %r); print('RESULT' + json.dumps(r))" % (os.path.dirname(os.path.dirname(os.path.abspath(__file__))), a, tier))
@@ -463,7 +466,7 @@ def hash_slice(a, tier):
                 prog = base + [{"op": "ground", "p": list(touched[0])}]
                 res["evals"] += 1
                 res["nontrivial"] += 1
-                judge_build(prog, {}, "to", res)
+                judge_build(prog, {}, "dir", res)
     return {"evals": res["evals"], "transitions": res["transitions"], "nontrivial": res["nontrivial"], "violations": res["violations"][:5]}
 
 
